@@ -404,16 +404,22 @@ mod verif_drawing {
         changed(&old, &img, y, x)
     }
 
-    /// 0, 1 or 2 vertices (2 vertices = two edges, there and back).
+    /// Degenerate outlines: no vertex, one vertex (a single zero-length edge).
+    /// (Vertex counts are literals: a symbolic slice length costs minutes of symbolic execution.)
     #[kani::proof]
     #[kani::unwind(6)]
-    pub fn draw_polygon_thin_le2() {
-        let n: u8 = kani::any();
-        kani::assume(n <= 2);
-        let ch = draw_polygon_frame(n as usize);
-        kani::cover!(n == 0, "empty polygon");
-        kani::cover!(n == 1, "single vertex");
-        kani::cover!(n == 2 && ch, "two vertices change a pixel");
+    pub fn draw_polygon_thin_le1() {
+        let ch0 = draw_polygon_frame(0);
+        let ch1 = draw_polygon_frame(1);
+        kani::cover!(!ch0 && !ch1, "both degenerate outlines done");
+    }
+
+    /// Two vertices = two edges, there and back.
+    #[kani::proof]
+    #[kani::unwind(6)]
+    pub fn draw_polygon_thin_2() {
+        let ch = draw_polygon_frame(2);
+        kani::cover!(ch, "two-vertex outline changes a pixel");
     }
 
     /// Triangles.
